@@ -170,7 +170,8 @@ Fixpoint struct_loop (e : string) (aligned : bool) (start : Z) (items : list (fm
   | _ :: _, [] => Err EType
   end.
 
-(* UnionMetaType._read_fields over a buffer `buf` with base offset `base`; returns members and the position after the LAST member *)
+(* UnionMetaType._read_fields over a buffer `buf` with base offset `base`; returns members and the furthest position any member reached
+   (`last` starts at the union's own position): a dynamically sized union extends to the end of the member that reaches furthest *)
 Fixpoint union_loop (items : list (string * option Z * rfn)) (buf : list Z) (base : Z) (last : Z)
          (vals : list (string * value)) (lctx : list (string * Z)) : result (list (string * value) * Z) :=
   match items with
@@ -178,7 +179,7 @@ Fixpoint union_loop (items : list (string * option Z * rfn)) (buf : list Z) (bas
   | (n, fo, rd) :: r =>
     let st := match fo with Some o => o | None => 0 end in
     do x <- rd buf (base + st) lctx;
-    union_loop r buf base (snd x) ((n, fst x) :: vals) (int_ctx n (fst x) lctx)
+    union_loop r buf base (Z.max last (snd x)) ((n, fst x) :: vals) (int_ctx n (fst x) lctx)
   end.
 
 Section Reader.
